@@ -19,7 +19,8 @@ PENDING_TEXT = {
             "ShapeVerif.accepted_is_json", "ShapeVerif.sources_accepted_are_json", "ShapeVerif.checked_ok_is_json",
             "ShapeVerif.accept_sound", "ShapeVerif.tokenize_sound", "ShapeVerif.rules_sound",
             "ShapeVerif.accept_no_diagnostics", "ShapeVerif.unchecked_false", "ShapeVerif.checked_iff",
-            "ShapeVerif.sources_accept", "ShapeVerif.parse_sound"],
+            "ShapeVerif.sources_accept", "ShapeVerif.parse_sound", "ShapeVerif.parse_complete",
+            "ShapeVerif.parse_iff_jsonText", "ShapeVerif.number_follow"],
     "C05": ["ShapeVerif.fromStr_total", "ShapeVerif.span_faithful", "ShapeVerif.entry_points_total",
             "ShapeVerif.sources_span_faithful", "ShapeVerif.tokenize_ok", "ShapeVerif.parse_leaves",
             "ShapeVerif.classifyArray_never_fails", "ShapeVerif.classifyArrayV_total",
@@ -204,10 +205,11 @@ PROPS = {
     },
     "C04": {
         "module": "ShapeVerif.Props.C04Complete",
-        "extra_modules": ["ShapeVerif.Props.C04Sound", "ShapeVerif.Props.C04", "ShapeVerif.Lemmas.RfcSound"],
+        "extra_modules": ["ShapeVerif.Props.C04Sound", "ShapeVerif.Props.C04", "ShapeVerif.Lemmas.RfcSound", "ShapeVerif.Lemmas.RfcComplete"],
         "theorems": PENDING_TEXT["C04"],
         "statements": {
             "parse_sound": "Rfc.parse cs = some d → JsonText cs (specDoc d): the executable recursive-descent reading of RFC 8259 that the run-time oracle uses accepts only texts that are JSON in the sense of the specification accept_iff is stated against, with the same document (payloads erased, member names unescaped)",
+            "parse_complete": "JsonText cs d → ∃ d', Rfc.parse cs = some d' ∧ specDoc d' = d: every text that can be cut into RFC lexemes deriving a document in the token grammar is accepted by the executable reference parser with that document; with parse_sound: (∃ d', Rfc.parse cs = some d') ↔ ∃ d, JsonText cs d",
             "accept_iff": "∀ src s, fromStr src = ok s ↔ ∃ toks d, JsonTextVia src toks d ∧ depthOk (toks.map kind) ∧ inferDoc d = ok s — JsonTextVia (Ref/JsonText.lean): toks cut src into lexemes each valid per RFC 8259 (six structural characters, three literal names, number per §6 = Rfc.number, string per §7 = Rfc.stringBody, whitespace runs) whose non-whitespace part derives `value` in the RFC's token grammar (Ref/TokenGrammar.lean); depthOk: no prefix has more than 256 brackets open; inferDoc d fails exactly on a member name repeated with conflicting value shapes",
             "json_is_inferred": "JsonTextVia src toks d → depthOk → fromStr src = inferDoc d (as outcomes): every JSON text within the bound is accepted with inferDoc's shape or rejected with inferDoc's error",
             "sources_iff": "(∃ s, fromSources srcs = ok s) ↔ srcs ≠ [] ∧ every source is accepted by fromStr",
@@ -215,7 +217,7 @@ PROPS = {
             "unchecked_false": "is_superset answers false for every text from_str rejects",
             "tvalue_unique": "the token grammar is unambiguous: a token list has at most one document",
         },
-        "partial": ["the theorem's specification of JSON is the declarative two-level grammar (JsonTextVia); the executable reference parser used by the run-time oracle (Rfc.parse, recursive descent over characters) is a second, independent rendering of RFC 8259 — their equivalence is not proved (the oracle compares the implementation with Rfc.parse on every generated text, the theorem ties the model to JsonTextVia)",
+        "partial": ["the theorem's specification of JSON is the declarative two-level grammar (JsonTextVia); the executable reference parser used by the run-time oracle (Rfc.parse, recursive descent over characters) is a second, independent rendering of RFC 8259 — the two are proved to accept the same texts with the same documents (parse_sound, parse_complete, parse_iff_jsonText), so the oracle's verdict on a text is the specification's",
                     "logos' matching discipline and the lelwel-generated parser are modelled from their sources/behaviour; the model is compared with the real lexer tokens, CST and results on every text of the run"],
         "rule": "from_str (and is_superset_checked / is_superset / from_sources on a subset) on: every string of length <= 3 (thorough 4) over a 29-character JSON alphabet, every token string of length <= 5 (thorough 6) over 13 lexemes, valid documents in four formattings with every prefix, deletion, substitution and insertion, escapes incl. surrogate pairs, nesting 200..300 around the limit, asymmetric bracket mixes, many-sibling documents (up to 700 arrays/objects). Oracle: accepted iff the independent RFC 8259 parser (Ref/Rfc8259.lean) accepts, depth <= 256 and no conflicting duplicate member names. Non-trivial = text with a container or an error.",
         "assumptions": ["logos' matching discipline (longest match, keyword priority, one-character error tokens) is modelled from observation"],
@@ -606,6 +608,12 @@ def direct_oracle(pid, ops, impl):
                         fails.append({"op": o2, "impl": f"{c2} allocations at size {s2} after {c1} at size {s1} (log-log slope {slope:.2f})",
                                       "expected": "slope <= 2.3", "why": "heap allocations must grow polynomially (low degree) with input size in family " + name})
     if pid == "C11":
+        # Ord agrees with Eq: two shapes compare equal exactly when they are the same shape
+        for o, r in zip(ops, impl):
+            f = o.split("\t")
+            if f[0] == "cmp" and r in ("lt", "eq", "gt") and (r == "eq") != (f[1] == f[2]):
+                fails.append({"op": o, "impl": r, "expected": "eq exactly for equal shapes",
+                              "why": "the order on shapes disagrees with equality (OneOf variants are kept in an ordered set)"})
         # Display injectivity on the implementation: among shapes with identifier-like keys no two
         # different shapes print the same text
         seen = {}
